@@ -14,7 +14,8 @@ Ltac pbrute :=
          request_ready, reset_all_status, reset_round_status, update_combs, map_p, upd_p, with_st, with_players, with_result, ph;
   repeat match goal with |- context [if ?c then _ else _] => destruct c end; reflexivity.
 
-Lemma ph_pay g i chips w : ph (pay g i chips w) = ph g. Proof. pbrute. Qed.
+Lemma ph_pay g i chips w : ph (pay g i chips w) = ph g.
+Proof. pose proof (qv_pay g i chips w) as H. unfold qv in H. unfold ph. injection H as _ _ _ _ -> _ _ _ _ _ -> _. reflexivity. Qed.
 Lemma ph_set_current g i : ph (set_current g i) = ph g. Proof. pbrute. Qed.
 Lemma ph_reset_all g : ph (reset_all g) = ph g. Proof. pbrute. Qed.
 Lemma ph_set_last g a t v : ph (set_last g a t v) = ph g. Proof. reflexivity. Qed.
@@ -824,6 +825,10 @@ Proof.
   rewrite H, R2. simpl. lia.
 Qed.
 
+Lemma pos_next r0 r e : r <> RNone -> (3 * round_num r0 + 2 < 3 * round_num r)%nat ->
+  e = EvReadyRequested \/ e = EvRoundClosed -> (pos_of (EvRoundClosed, r0) < pos_of (e, r))%nat.
+Proof. intros Hr Hlt [->| ->]; destruct r0, r; simpl in *; try lia; contradiction. Qed.
+
 Lemma pos_do_next g : Good g -> snd (do_next g) = Ok -> (pos_of (ph g) < pos_of (ph (fst (do_next g))))%nat.
 Proof.
   intros [HI HO HK P _]. unfold do_next.
@@ -842,7 +847,7 @@ Proof.
                 (pos_of (EvRoundClosed, st_round (g_st g)) < pos_of (ph (fst (guard (enter_street g1 r)))))%nat).
   { intros r Hrn Hlt. unfold guard. pose proof (ph_enter_street g1 r) as H. destruct (enter_street g1 r) as [g2 o2]. cbn [fst snd] in *.
     destruct o2; cbn [fst snd]; try discriminate. intros _.
-    destruct (H eq_refl) as [H1|[H1 _]]; rewrite H1; destruct (st_round (g_st g)), r; simpl in *; try lia; contradiction. }
+    destruct (H eq_refl) as [H1|[H1 _]]; rewrite H1; apply pos_next; auto. }
   assert (Hph : ph g = (EvRoundClosed, st_round (g_st g))) by (unfold ph; rewrite He; reflexivity). rewrite Hph.
   change (st_round (g_st g0)) with (st_round (g_st g)).
   destruct (st_round (g_st g)) eqn:Er; [contradiction| | | |].
